@@ -179,6 +179,46 @@ theorem time_cell_eq_memory (x : Ext) (hx : ExtLaw x) (cs : ColStyles) (rowStyle
       · right; simp [hs]
       · left; simp [hs]
 
+/-- **time.Duration values.** `SetRow` stores a duration as `SetCellValue` does (the same `FormatFloat(seconds/86400)`
+text, kind number, same formula) and gives it whatever style the cell has; the in-memory API additionally assigns a default
+duration format (`nfMem`: 20, 21 or 46) to a cell without any style, the stream writer assigns none — again outside
+"explicitly assigned styles". (With `nfMem = 0` the general theorems cover durations.) -/
+theorem duration_cell_eq_memory (x : Ext) (hx : ExtLaw x) (cs : ColStyles) (rowStyle : Int) (ref : Bytes) (col : Int)
+    (text : Bytes) (nfMem : Int) (htext : text ≠ []) (wrap : Option (Int × Bytes)) (c : XC)
+    (h : mkCell x cs rowStyle ref col
+      (match wrap with | none => .plain (.dur text nfMem) | some w => .cell w.1 w.2 (.dur text nfMem)) = .ok c) :
+    ∃ o, Spec.cellObs cs rowStyle col
+        (match wrap with | none => .plain (.dur text nfMem) | some w => .cell w.1 w.2 (.dur text nfMem)) = some o ∧
+      (readCell x c).kind = o.kind ∧ (readCell x c).value = o.value ∧ (readCell x c).formula = o.formula ∧
+      ((readCell x c).style = o.style ∨ ((readCell x c).style = 0 ∧ o.style = nfMem)) := by
+  cases wrap with
+  | none =>
+    have h' : mkCell x cs rowStyle ref col (.plain (.dur text 0)) = .ok c := h
+    have := (Stream.cell_eq_memory x hx cs rowStyle ref col (.plain (.dur text 0)) (by simp [Item.isSkip])
+      (show Val.ok (.dur text 0) from ⟨htext, rfl⟩) c h').2
+    simp only [Spec.cellObs, Option.some.injEq] at this
+    refine ⟨_, rfl, ?_⟩
+    rw [this]
+    generalize (if rowStyle ≠ 0 then rowStyle else colStyleAt cs col) = S
+    simp only [Spec.valObs, Spec.valStyle]
+    refine ⟨trivial, trivial, trivial, ?_⟩
+    by_cases hs : S = 0
+    · right; simp [hs]
+    · left; simp [hs]
+  | some w =>
+    have h' : mkCell x cs rowStyle ref col (.cell w.1 w.2 (.dur text 0)) = .ok c := h
+    have := (Stream.cell_eq_memory x hx cs rowStyle ref col (.cell w.1 w.2 (.dur text 0)) (by simp [Item.isSkip])
+      (show Val.ok (.dur text 0) from ⟨htext, rfl⟩) c h').2
+    simp only [Spec.cellObs, Option.some.injEq] at this
+    refine ⟨_, rfl, ?_⟩
+    rw [this]
+    generalize (if w.1 > 0 then w.1 else if rowStyle ≠ 0 then rowStyle else colStyleAt cs col) = S
+    simp only [Spec.valObs, Spec.valStyle]
+    refine ⟨trivial, trivial, trivial, ?_⟩
+    by_cases hs : S = 0
+    · right; simp [hs]
+    · left; simp [hs]
+
 /-- **stream_eq_memory.** Take any starting state without rows (any SetColStyle/SetColWidth/
 SetPanes/MergeCell history) and any sequence of SetRow calls that are all accepted (hence
 ascending), with arbitrary gaps, nil cells, starting columns and widths. Reading the written
